@@ -1,4 +1,6 @@
 pub mod engine;
+pub mod mmdb;
+pub mod tui;
 pub mod oracle;
 pub mod props;
 pub mod simnet;
